@@ -98,7 +98,22 @@ def designator_cond(built):
     return {"utm": "utm", "ups": "ups", "lcc": "nsp", "mer": "nsp"}.get(des)
 
 
-def expectations(built, files=("VOL", "LED", "IMG"), skip_tr=("att_time", "pp_datetime")):
+def pp_instant(date_text, sod_text):
+    """platform-position first point: three I4 integers (year, month, day; any padding) + decimal seconds of day -> datetime
+    at microsecond resolution (the resolution of the ISO attribute)"""
+    from fractions import Fraction
+
+    y, mo, d = (int(t) for t in str(date_text).split())
+    t = str(sod_text).strip().lower()
+    if "e" in t:
+        m, x = t.split("e")
+        fr = Fraction(m) * Fraction(10) ** int(x)
+    else:
+        fr = Fraction(t)
+    return dt.datetime(y, mo, d) + dt.timedelta(microseconds=round(fr * 10**6))
+
+
+def expectations(built, files=("VOL", "LED", "IMG"), skip_tr=("att_time",)):
     """-> list of Expectation for every mapped field of the product"""
     om = L.outmap()
     tables = L.tables()
@@ -145,6 +160,10 @@ def expectations(built, files=("VOL", "LED", "IMG"), skip_tr=("att_time", "pp_da
                         y, doy, _ = fb.truth[(r, "sensor_acquisition_date", line)]
                         day = dt.datetime(y, 1, 1) + dt.timedelta(days=doy - 1)
                         e.value = ("M", ns_of(day) + int(v) * 1000)
+                    elif m["tr"] == "pp_datetime":
+                        if not path.endswith("seconds_of_day"):
+                            continue
+                        e.value = ("instant-us", pp_instant(fb.truth[(r, "datetime_of_first_point.date", line)], v))
                     elif m["tr"] == "iso":
                         e.value = ("instant", parse_compact(v))
                     elif m["tr"] == "range0":
@@ -247,6 +266,13 @@ def value_matches(got, want, ulp=4):
             return False
         try:
             return parse_iso(got[1]) == want[1]
+        except ValueError:
+            return False
+    if want[0] == "instant-us":  # decimal seconds through a double: one microsecond of slack
+        if got[0] != "U":
+            return False
+        try:
+            return abs((parse_iso(got[1]) - want[1]).total_seconds()) <= 1.5e-6
         except ValueError:
             return False
     if want[0] == "f-any":
